@@ -503,6 +503,6 @@ func plans(tier string) []mc.Plan {
 }
 
 func init() {
-	mc.Register(&mc.Check{ID: "C01", Plans: plans, Budget: map[string]int{"quick": 150, "thorough": 1800},
+	mc.Register(&mc.Check{ID: "C01", Plans: plans, Budget: map[string]int{"quick": 240, "thorough": 1800},
 		Notes: "C01: message delivery over a real conn/server pair; oracle = per-sender order, exactly once, byte equality, no gap over a successful send, flush-at-return (write log parsed by the reference decoder), completeness at quiescence, end-of-stream after half-close."})
 }
